@@ -157,6 +157,9 @@ pub fn emit(krate: &mut Crate, g: &AstG, sents: &[Sentence], rep: &mut Rep, grou
                 rep.count("lexically_ambiguous_modules", 1);
             }
             if !c.outcome.is_ok() {
+                if std::env::var("VH_DEBUG").is_ok() {
+                    eprintln!("REJECTED {}\n{}", c.outcome.show(), text);
+                }
                 rep.count("rejected_by_compiler", 1);
                 for sfx in [".rustemo", ".rs", "_actions.rs"] {
                     let _ = std::fs::remove_file(krate.src().join(format!("{}{}", m, sfx)));
@@ -204,7 +207,8 @@ pub fn main(a: &Args) {
         let mut tries = 0;
         if a.shard % 4 == 1 {
             let g = gen_lex_amb(&mut rng);
-            let sents: Vec<Sentence> = sentences(&g, &mut rng, 14).into_iter().filter(|s| s.content.len() <= 3).collect();
+            let sents: Vec<Sentence> = sentences(&g, &mut rng, 40).into_iter().filter(|s| s.content.len() <= 4).take(12).collect();
+            rep.count("lexically_ambiguous_sentences", sents.len() as u64);
             if sents.len() >= 2 {
                 emit(&mut krate, &g, &sents, &mut rep, 900 + 1000 * a.shard as usize, true);
             }
